@@ -39,15 +39,20 @@ func (c *Config) CountField(name string, opts ...Option) (int, error) {
 		return len(c.fields.array()) + len(c.fields.dict()), nil
 	}
 
-	if v, ok := c.fields.get(name); ok {
-		n, err := v.Len(makeOptions(opts))
-		if err != nil {
-			ctx := v.Context()
-			return -1, raisePathErr(err, v.meta(), "", ctx.path("."))
-		}
-		return n, nil
+	// the name addresses the setting like the name of a getter does (it is
+	// split at the path separator, a number is a list index)
+	O := makeOptions(opts)
+	v, err := c.getField(name, -1, O)
+	if err != nil {
+		return -1, err
 	}
-	return -1, raiseMissing(c, name)
+
+	n, fail := v.Len(O)
+	if fail != nil {
+		ctx := v.Context()
+		return -1, raisePathErr(fail, v.meta(), "", ctx.path("."))
+	}
+	return n, nil
 }
 
 // Bool reads a boolean setting returning an error if the setting has no
